@@ -169,7 +169,7 @@ func genAdv(prop string) func(rt *rapid.T) interface{} {
 			kinds = append(kinds, advFuzz...)
 			kinds = append(kinds, advFuzz...)
 			kinds = append(kinds, advFuzz...)
-			kinds = append(kinds, "reuse-addr", "reuse-addr", "ps-m5-badltpk", "ps-m5-badltpk", "pairings-add-shortkey", "pairings-add-shortkey", "pv-m3-shortkey-name", "pv-m3-shortkey-name", "ps-m3-a0-pubproof", "ps-m3-longA", "ps-m3-badprooflen", "ps-m5-weak")
+			kinds = append(kinds, "stall-partial-body", "stall-partial-body", "reuse-addr", "reuse-addr", "ps-m5-badltpk", "ps-m5-badltpk", "pairings-add-shortkey", "pairings-add-shortkey", "pv-m3-shortkey-name", "pv-m3-shortkey-name", "ps-m3-a0-pubproof", "ps-m3-longA", "ps-m3-badprooflen", "ps-m5-weak")
 			kinds = append(kinds, "ps-m1", "ps-m3-right", "ps-m3-wrong", "ps-m3-a0", "ps-m3-noA", "ps-m5-short", "ps-m5-random", "ps-m5-tampered", "ps-unknown-state", "ps-unknown-method",
 				"pv-m1", "pv-m1-short", "pv-m3-genuine", "pv-m3-short", "pv-m3-wrongseal", "pv-m3-badtlv", "pv-m3-unknown", "pv-m3-self", "pv-unknown-state", "get-acc", "put-val", "put-ev", "get-chars")
 		}
@@ -1051,6 +1051,28 @@ func (aw *advWorld) do(p *peerConn, op AdvOp) *advResult {
 		p.cl.Enc = p.cl.Enc && aw.verifiedConns[p.conn.ID]
 		p.request("GET", "/characteristics?id="+firstChar, "", nil, r)
 
+	case "stall-partial-body":
+		// a request whose announced body never arrives in full: the peer goes silent without
+		// closing and carries on from a new connection. Nobody else may have to wait for it.
+		paths := []string{"/pair-setup", "/pair-verify", "/pairings", "/characteristics", "/resource", "/identify"}
+		path := paths[op.Arg%len(paths)]
+		method, ctype := "POST", ref.CTypeTLV
+		if path == "/characteristics" {
+			method, ctype = "PUT", ref.CTypeJSON
+		}
+		part := []byte{0x06}
+		if op.Arg%2 == 1 {
+			part = nil
+		}
+		head := fmt.Sprintf("%s %s HTTP/1.1\r\nHost: acc.local\r\nContent-Type: %s\r\nContent-Length: %d\r\n\r\n", method, path, ctype, 6+op.Arg%40)
+		if err := p.cl.Send(append([]byte(head), part...)); err != nil {
+			r.Err = err.Error()
+		}
+		w.Sim.Count("fault.silent_peer_with_incomplete_request")
+		w.StepWhen(p.name, "silent: wait until the accessory has read what was sent", func() bool { return !p.conn.Pending(0) && p.conn.Unread(0) == 0 })
+		// the connection stays open and is never used again
+		p.cl = nil
+		p.srp, p.salt, p.B, p.m3rightOK, p.setupClean, p.pvStarted, p.pvHave = nil, nil, nil, false, false, false, false
 	default:
 		if strings.HasPrefix(op.Kind, "fuzz-") {
 			path := "/" + strings.TrimPrefix(op.Kind, "fuzz-")
